@@ -197,6 +197,61 @@ def ctor_params(repo, c):
     return {p.arg for p in (a.posonlyargs + a.args)[1:]} | {p.arg for p in a.kwonlyargs}
 
 
+MUTATORS = ("append", "extend", "insert", "pop", "remove", "sort", "reverse", "clear", "setdefault", "popitem")
+
+
+from ..passthru import alias_locals as _alias_locals  # noqa: E402
+
+
+def _writes_through(repo, module, fn, seed_of, params_alias=(), depth=3):
+    """[(node, origin, description)] of in-place writes in ``fn`` (closures included) to objects of a seed origin:
+    attribute / item stores, container mutators, setattr, or a repository helper that writes to the parameter it receives."""
+    alias, origin_of = _alias_locals(repo, module, fn, seed_of, params_alias)
+    out = []
+    for n in ast.walk(fn):
+        if isinstance(n, (ast.Assign, ast.AugAssign, ast.Delete)):
+            tgts = n.targets if isinstance(n, (ast.Assign, ast.Delete)) else [n.target]
+            for t in tgts:
+                if isinstance(t, (ast.Attribute, ast.Subscript)):
+                    o = origin_of(t.value)
+                    if o is not None and not (isinstance(t, ast.Attribute) and isinstance(t.value, ast.Name) and t.value.id == "self"):
+                        out.append((n, o, "store to `%s`" % ast.unparse(t)))
+        elif isinstance(n, ast.Call):
+            f = n.func
+            if isinstance(f, ast.Attribute) and f.attr in MUTATORS and origin_of(f.value) is not None:
+                out.append((n, origin_of(f.value), "`.%s(...)`" % f.attr))
+            elif astq.call_name(n) in ("setattr", "delattr") and isinstance(f, ast.Name) and n.args and origin_of(n.args[0]) is not None:
+                out.append((n, origin_of(n.args[0]), "`%s(...)`" % f.id))
+            elif depth > 0 and dotted(f) and not (dotted(f).startswith("self.")):
+                sym = repo.resolve_dotted(module, dotted(f))
+                if sym is not None and sym.kind == "func":
+                    pn = [a.arg for a in sym.target.args.args]
+                    cands = [(pn[i], a) for i, a in enumerate(n.args) if i < len(pn)] + [(k.arg, k.value) for k in n.keywords if k.arg in pn]
+                    for pname, a in cands:
+                        o = origin_of(a)
+                        if o is None:
+                            continue
+                        w = _mutates_param(repo, sym.module, sym.target, pname, depth - 1)
+                        if w is not None:
+                            out.append((n, o, "helper %s writes to the object it is handed (%s)" % (sym.target.name, w)))
+    return out
+
+
+def _mutates_param(repo, module, fn, pname, depth=3, _cache={}):
+    """'line N: what' of a write *through* parameter ``pname`` of helper ``fn``, or None."""
+    key = (id(repo), module.relpath, fn.name, fn.lineno, pname)
+    if key in _cache:
+        return _cache[key]
+    _cache[key] = None
+    ws = _writes_through(repo, module, fn, lambda e: None, params_alias={pname: pname}, depth=depth)
+    res = None
+    if ws:
+        n, _, desc = ws[0]
+        res = "%s:%s %s" % (module.relpath, n.lineno, desc)
+    _cache[key] = res
+    return res
+
+
 def rule_R2(ctx, repo, classes):
     """No method other than the parameter writers stores to a constructor parameter."""
     seen = {}
@@ -223,7 +278,6 @@ def rule_R2(ctx, repo, classes):
                         ent[4].add(c.name)
                         ent[5].add(mname)
             ctx.count("R2_methods_scanned", len(k.methods))
-    MUTATORS = ("append", "extend", "insert", "pop", "remove", "sort", "reverse", "clear", "setdefault", "popitem")
     mut_seen = {}
     for c in classes:
         params = ctor_params(repo, c)
@@ -267,24 +321,16 @@ def rule_R2(ctx, repo, classes):
                             src = returns_param(hit[1])
                     if src:
                         alias[attr] = src
+        def seed_of(e):
+            return alias[e.attr] if astq.is_self_attr(e) and e.attr in alias else None
         for k, fn in methods:
-            for n in astq.walk_no_nested(fn):
-                tgt = None
-                if isinstance(n, (ast.Assign, ast.AugAssign, ast.Delete)):
-                    tgts = n.targets if isinstance(n, (ast.Assign, ast.Delete)) else [n.target]
-                    for t in tgts:
-                        if isinstance(t, ast.Subscript) and astq.is_self_attr(t.value) and t.value.attr in alias:
-                            tgt = t.value.attr
-                elif isinstance(n, ast.Call) and isinstance(n.func, ast.Attribute) and n.func.attr in MUTATORS \
-                        and astq.is_self_attr(n.func.value) and n.func.value.attr in alias:
-                    tgt = n.func.value.attr
-                if tgt is not None:
-                    key = "%s:%s(in-place)" % (k.qual, alias[tgt])
-                    mut_seen.setdefault(key, (k, fn, n, tgt, alias[tgt], set()))[5].add(c.name)
+            for n, origin, desc in _writes_through(repo, k.module, fn, seed_of):
+                key = "%s:%s(in-place)" % (k.qual, origin)
+                ent = mut_seen.setdefault(key, (k, fn, n, desc, origin, set()))
+                ent[5].add(c.name)
     for key, (k, fn, node, tgt, p_, users) in sorted(mut_seen.items()):
-        via = "" if tgt == p_ else " through its alias self.%s" % tgt
-        ctx.violation("R2", key, "constructor parameter `%s` (of %s) is mutated in place%s in %s.%s"
-                      % (p_, ", ".join(sorted(users)[:4]), via, k.name, fn.name), ctx.loc(k.module, node))
+        ctx.violation("R2", key, "constructor parameter `%s` (of %s) is mutated in place in %s.%s: %s"
+                      % (p_, ", ".join(sorted(users)[:4]), k.name, fn.name, tgt), ctx.loc(k.module, node))
     for key, (k, fn, stmt, attr, users, meths) in sorted(seen.items()):
         ctx.violation("R2", key, "`self.%s` is a constructor parameter (of %s) and is overwritten in %s.%s (reachable from fit / apply-type methods)"
                       % (attr, ", ".join(sorted(users)[:4]), k.name, "/".join(sorted(meths))), ctx.loc(k.module, stmt))
@@ -531,8 +577,9 @@ def rule_R4(ctx, repo, flow, sk_classes):
                     if t.kind == "method" and t.func is not None and flow.must_call(t.func, guard, t.module, c, t.defcls, skip=_is_abstract):
                         return True  # statement-level granularity: a guarded own method called in the same statement
                 return False
-            if not any(astq.call_name(cl) == "check_is_fitted" for n in g.nodes for cl in n.calls()):
-                continue
+            if not any(astq.call_name(cl) == "check_is_fitted" for n in g.nodes for cl in n.calls()) \
+                    and not flow.must_call(fn, guard, k.module, c, k, skip=_is_abstract):
+                continue  # neither guards itself nor through an own method on every path (reported above)
             IN, OUT = g.forward_must(is_guard)
             early = []
             for n in g.nodes:
@@ -638,8 +685,11 @@ def rule_R5(ctx, repo, flow):
     repl_name = None
     for c in astq.calls(sp):
         if isinstance(c.func, ast.Attribute) and dotted(c.func.value) == "self" and len(c.args) == 3 and dotted(c.args[0]) == "attr" \
-                and isinstance(c.args[2], ast.Call) and astq.call_name(c.args[2]) == "pop" and c.func.attr in meta.methods:
-            repl_name = c.func.attr  # the component-replacement helper, discovered by its role (attr, name, params.pop(name))
+                and c.func.attr in meta.methods and any(
+                    astq.call_name(x) == "setattr" and len(x.args) == 3 and dotted(x.args[0]) == "self"
+                    and dotted(x.args[1]) == astq.param_names(meta.methods[c.func.attr], skip_self=True)[0]
+                    for x in astq.calls(meta.methods[c.func.attr])):
+            repl_name = c.func.attr  # the component-replacement helper, discovered by its role: (attr, name, value) -> setattr(self, attr, ...)
     for n in g.nodes:
         for c in n.calls():
             nm = astq.call_name(c)
@@ -796,6 +846,8 @@ def rule_R5(ctx, repo, flow):
         ctx.check(ok, "R5", c.qual + ":plumbing", "get_params/set_params use attribute %r, a constructor parameter" % ga,
                   "get_params uses %r, set_params uses %r; constructor parameters: %s" % (ga, sa_, sorted(params)),
                   ctx.loc(c.module, gpm or spm))
+        if ga is not None and ga not in params and ga in propnames:
+            _component_view(ctx, repo, c, ga, params)
         for m, helper in ((gpm, "_get_params"), (spm, "_set_params")):
             if m is None:
                 continue
@@ -813,6 +865,94 @@ def rule_R5(ctx, repo, flow):
             ctx.check(fwd and ret_ok, "R5", "%s:%s" % (c.qual, m.name), "%s forwards its arguments to %s and returns its result" % (m.name, helper),
                       "%s.%s does not forward deep/**params to %s or does not return its result" % (c.name, m.name, helper), ctx.loc(c.module, m))
     ctx.count("R5_composites", n)
+
+
+def _component_view(ctx, repo, c, attr, params):
+    """The attribute handed to _get_params/_set_params is a *property*: a (name, estimator) view over a constructor
+    parameter.  get_params/set_params/component replacement are positional over that view, so the getter must list
+    every stored component, in order, and the setter must be its positional inverse (zip over the stored list)."""
+    prop = None
+    for k in repo.mro(c):
+        if isinstance(k, ClassInfo) and attr in k.properties:
+            prop, owner = k.properties[attr], k
+            break
+    getter, setter = prop.get("getter"), prop.get("setter")
+    key = "%s:component-view" % c.qual
+    loc = ctx.loc(owner.module, getter or setter)
+    if getter is None or setter is None:
+        ctx.violation("R5", key, "property %r lacks a %s: nested set_params cannot write components back" % (
+            attr, "getter" if getter is None else "setter"), loc)
+        return
+    rets = astq.returns(getter)
+    if len(rets) != 1 or len([st for st in getter.body if not (isinstance(st, ast.Expr) and isinstance(st.value, ast.Constant))]) != 1:
+        ctx.undecided("R5", key, "getter of %r is not a single return expression" % attr, loc)
+        return
+    v = rets[0].value
+
+    def stored(e):
+        d = dotted(e)
+        return d[5:] if d and d.startswith("self.") and d[5:] in params else None
+
+    src = None
+    if stored(v):
+        src = stored(v)
+    elif isinstance(v, ast.ListComp) and len(v.generators) == 1 and stored(v.generators[0].iter):
+        gen = v.generators[0]
+        src = stored(gen.iter)
+        if gen.ifs:
+            ctx.violation("R5", key, "the (name, estimator) view %r filters the stored components (`if %s`): a filtered-out component is "
+                          "invisible to get_params, cannot be replaced by name, and shifts every later component onto the wrong "
+                          "entry when the setter zips the view with the stored list" % (attr, ast.unparse(gen.ifs[0])),
+                          ctx.loc(owner.module, gen.ifs[0]), witness={"components": "[('a', 'drop', 0), ('b', est, 1)]",
+                                                                     "call": "set_params(b=new) / get_params()['a']"})
+            return
+        tgt = gen.target
+        names = [dotted(e) for e in tgt.elts] if isinstance(tgt, ast.Tuple) else []
+        elt = [dotted(e) for e in v.elt.elts] if isinstance(v.elt, ast.Tuple) else []
+        if len(names) < 2 or elt != names[:2] or None in elt:
+            ctx.violation("R5", key, "the view %r does not list (name, estimator) = the first two fields of each stored component "
+                          "(element %s from target %s)" % (attr, ast.unparse(v.elt), ast.unparse(tgt)), ctx.loc(owner.module, v))
+            return
+    else:
+        ctx.undecided("R5", key, "getter of %r is neither self.<param> nor a comprehension over it: %s" % (attr, ast.unparse(v)[:80]), loc)
+        return
+    # setter: self.<src> = [(name, est, rest...) for ((name, est), (_, _, rest...)) in zip(value, self.<src>)]
+    val_param = astq.param_names(setter, skip_self=True)
+    stores = [st for st in ast.walk(setter) if isinstance(st, ast.Assign) and len(st.targets) == 1 and stored(st.targets[0]) == src]
+    sloc = ctx.loc(owner.module, setter)
+    if len(stores) != 1 or not val_param:
+        ctx.check(None if stores else False, "R5", key, "", "setter of %r does not store back into self.%s" % (attr, src), sloc)
+        return
+    sv = stores[0].value
+    if dotted(sv) == val_param[0]:
+        ok = stored(v) is not None
+        ctx.check(ok, "R5", key, "view %r is the stored list itself" % attr,
+                  "setter stores the (name, estimator) view as the component list although the getter strips fields", sloc)
+        return
+    good = False
+    why = "unrecognised shape"
+    if isinstance(sv, ast.ListComp) and len(sv.generators) == 1:
+        gen = sv.generators[0]
+        z = gen.iter
+        if gen.ifs:
+            ctx.violation("R5", key, "setter of %r drops components (`if %s`)" % (attr, ast.unparse(gen.ifs[0])), sloc)
+            return
+        if isinstance(z, ast.Call) and astq.call_name(z) == "zip" and len(z.args) == 2 and dotted(z.args[0]) == val_param[0] \
+                and stored(z.args[1]) == src and isinstance(gen.target, ast.Tuple) and len(gen.target.elts) == 2 \
+                and all(isinstance(e, ast.Tuple) for e in gen.target.elts) and isinstance(sv.elt, ast.Tuple):
+            new_names = [dotted(e) for e in gen.target.elts[0].elts]
+            old_names = [dotted(e) for e in gen.target.elts[1].elts]
+            elt = [dotted(e) for e in sv.elt.elts]
+            good = len(new_names) == 2 and elt[:2] == new_names and elt[2:] == old_names[2:] and len(elt) == len(old_names) \
+                and None not in elt
+            why = "element %s from %s" % (ast.unparse(sv.elt), ast.unparse(gen.target))
+    if good:
+        ctx.ok("R5", key, "%r lists every stored component as (name, estimator) in order; the setter zips the new pairs with the "
+               "remaining stored fields" % attr, loc)
+    elif why == "unrecognised shape":
+        ctx.undecided("R5", key, "setter of %r: %s" % (attr, ast.unparse(sv)[:80]), sloc)
+    else:
+        ctx.violation("R5", key, "setter of %r is not the positional inverse of the getter (%s)" % (attr, why), sloc)
 
 
 def _reaching_def(stmts, target_stmt, name):
